@@ -19,6 +19,8 @@ import (
 
 	fnv1 "github.com/crossplane/crossplane/apis/apiextensions/fn/proto/v1"
 	v1 "github.com/crossplane/crossplane/apis/apiextensions/v1"
+	"github.com/crossplane/crossplane-runtime/pkg/resource/unstructured/composed"
+
 	"github.com/crossplane/crossplane/internal/controller/apiextensions/composite"
 	"github.com/crossplane/crossplane/internal/verifenv"
 	"github.com/crossplane/crossplane/internal/verifkit"
@@ -274,5 +276,66 @@ func TestVerifC02Composers(t *testing.T) {
 			cc.targetName = cc.discoverGeneratedName()
 		}
 		runCase(rec, cc.build, cc.Place, 3, func() any { return cc }, tfail(t))
+	})
+}
+
+// ---------------------------------------------------------------------------
+// The function composer's garbage collector, driven directly. Through the XR
+// reconciler it never sees a foreign-controlled resource (the observer drops
+// them first), so its own documented guard ("Don't garbage collect composed
+// resources that someone else controls") is only reachable here.
+
+type fnGCCase struct {
+	N     int       `json:"observed"`
+	Gone  int       `json:"undesired"` // index of the observed resource that is no longer desired
+	Place placement `json:"placement"`
+}
+
+func (gc fnGCCase) build(p placement) (*world, expectation) {
+	cc := compCase{Pipeline: true, Rules: []crule{{Name: "r0", Kind: "KindA"}}, Seed: 7}
+	w, env, other := xrWorld(cc, nil, nil, nil)
+	xr := env.Sim.Get(env.XRKey(xrName))
+	var tk verifsim.Key
+	for i := 0; i < gc.N; i++ {
+		o := verifsim.Obj{"apiVersion": "example.org/v1", "kind": "KindA", "metadata": map[string]any{"name": fmt.Sprintf("cd-%d", i),
+			"annotations": map[string]any{annResName: fmt.Sprintf("r%d", i)}, "labels": map[string]any{lblComp: xrName}}, "spec": map[string]any{"forProvider": map[string]any{"v": "x"}}}
+		pl := own
+		if i == gc.Gone%gc.N {
+			pl = p
+			tk = verifsim.KeyOf(o)
+		}
+		setController(o, pl, refTo(xr, true), refTo(other, true))
+		mustCreate(env.Sim, o)
+	}
+	w.step = func(c client.Client, _ int) error {
+		ctx := context.Background()
+		owner := verifenv.NewUnstructuredXR(env.XRGVK, xrName)
+		if err := c.Get(ctx, client.ObjectKey{Name: xrName}, owner); err != nil {
+			return err
+		}
+		observed, desired := composite.ComposedResourceStates{}, composite.ComposedResourceStates{}
+		for i := 0; i < gc.N; i++ {
+			cd := composed.New()
+			cd.SetAPIVersion("example.org/v1")
+			cd.SetKind("KindA")
+			if err := c.Get(ctx, client.ObjectKey{Name: fmt.Sprintf("cd-%d", i)}, cd); err != nil {
+				continue
+			}
+			name := composite.ResourceName(fmt.Sprintf("r%d", i))
+			observed[name] = composite.ComposedResourceState{Resource: cd}
+			if i != gc.Gone%gc.N {
+				desired[name] = composite.ComposedResourceState{Resource: cd}
+			}
+		}
+		return composite.NewDeletingComposedResourceGarbageCollector(c).GarbageCollectComposedResources(ctx, owner, observed, desired)
+	}
+	return w, expectation{site: "composer/functions-gc-direct", kind: "gc", place: p, target: tk, surface: true, mustWrite: true, gone: true}
+}
+
+func TestVerifC02FunctionGC(t *testing.T) {
+	rec := verifkit.New(t, "C02", "DeletingComposedResourceGarbageCollector driven directly with an observed, undesired resource")
+	rapid.Check(t, func(t *rapid.T) {
+		gc := fnGCCase{N: rapid.IntRange(1, 3).Draw(t, "n"), Gone: rapid.IntRange(0, 2).Draw(t, "gone"), Place: rapid.SampledFrom(placements).Draw(t, "placement")}
+		runCase(rec, gc.build, gc.Place, 2, func() any { return gc }, tfail(t))
 	})
 }
